@@ -72,7 +72,7 @@ fn enc_observation(v: &mut Vec<u64>, kind: u64, max: usize, ctx: usize, var: u64
         v.push(0);
         return;
     };
-    let g = needs_g.unwrap_or((lens.len() + max) % 2 == 0);
+    let g = needs_g.unwrap_or(lens.len().wrapping_add(max) % 2 == 0);
     let cfg = match kind {
         0 => WindowConfig::Character(max, ctx, g),
         1 => WindowConfig::Bytes(max, ctx, g),
@@ -109,7 +109,7 @@ pub fn exec(op: &str, a: &[u64]) -> Result<Outcome, String> {
     let (s, needs_g) = string_of_lens(&lens, var)?;
     // both modes give the same clusters when no cluster has more than one code point; use graphemes
     // whenever a multi-code-point cluster is present, otherwise alternate deterministically
-    let g = needs_g.unwrap_or((lens.len() + max) % 2 == 0);
+    let g = needs_g.unwrap_or(lens.len().wrapping_add(max) % 2 == 0);
     let cs = CharString::new(&s, g);
     let real: Vec<u64> = cs.get_char_byte_lengths().into_iter().map(|x| x as u64).collect();
     if real != lens {
@@ -161,7 +161,7 @@ pub fn exec(op: &str, a: &[u64]) -> Result<Outcome, String> {
                 }
                 o.check(recon == s, "concatenated window byte ranges do not reproduce the text");
                 if kind != 2 {
-                    o.check(max > 2 * ctx, "impossible configuration accepted");
+                    o.check((max as u128) > 2 * ctx as u128, "impossible configuration accepted");
                 }
             }
             Ok(o)
@@ -171,7 +171,7 @@ pub fn exec(op: &str, a: &[u64]) -> Result<Outcome, String> {
             let k = if msg.starts_with("max ") { "bad-config" } else if msg.starts_with("single character") { "too-wide" } else { "other" };
             let _ = k;
             let mut o = Outcome::new("accept".to_string());
-            if kind != 2 && max > 2 * ctx && n > 0 {
+            if kind != 2 && (max as u128) > 2 * ctx as u128 && n > 0 {
                 // valid configuration: only a character wider than the window may fail (byte windows)
                 let wl_first = max - ctx;
                 let wl_rest = max - 2 * ctx;
@@ -200,6 +200,14 @@ pub fn run_c16(ctx: &mut Ctx) {
             emit(ctx, kind, 2, 1, &[1, 2]);
             emit(ctx, kind, 3, 1, &[4, 4, 4]);
             emit(ctx, kind, 4, 0, &[1, 2, 3, 4, 7, 1]);
+        }
+        // "no limit" and other values at the top of the range (the arithmetic on max and context must not overflow)
+        let m = u64::MAX;
+        for kind in 0..2 {
+            for (max, c) in [(m, 0), (m, 1), (m, 5), (m - 1, 3), (m, m / 2), (m - 1, m / 2), (m, m / 2 + 1), (m / 2, m / 4), (m / 2 + 1, m / 4), (m, m), (7, m), (0, m / 2 + 1), (m / 2, m / 2 + 1)] {
+                emit(ctx, kind, max, c, &[1, 2, 3, 4, 1]);
+                emit(ctx, kind, max, c, &[2]);
+            }
         }
     }
     if ctx.thorough && ctx.first_shard() {
